@@ -737,6 +737,29 @@ class FunctionEngine(CallsMixin, Engine):
         for lab, inv in self.norm_clauses(spec.get('invariant', ())):
             st.assume(self.eval_spec(inv, env, st, pre=pre))
 
+    def only_writes_current_position(self, s, name):
+        """The loop is `for i, x in enumerate(name)` and every mutation of `name` in its body is `name[i] = ...`
+        with `i` not reassigned: iteration then sees exactly the elements of the sequence at loop entry."""
+        if not (isinstance(s.iter, ast.Call) and self.src(s.iter.func) == 'enumerate' and len(s.iter.args) == 1
+                and isinstance(s.iter.args[0], ast.Name) and s.iter.args[0].id == name
+                and isinstance(s.target, ast.Tuple) and isinstance(s.target.elts[0], ast.Name)):
+            return False
+        idx = s.target.elts[0].id
+        for node in ast.walk(ast.Module(body=list(s.body), type_ignores=[])):
+            if isinstance(node, (ast.Assign, ast.AugAssign)):
+                tgts = node.targets if isinstance(node, ast.Assign) else [node.target]
+                for t in tgts:
+                    for n in self.target_names(t):
+                        if n == idx or n == name:
+                            return False
+                    if isinstance(t, ast.Subscript) and isinstance(t.value, ast.Name) and t.value.id == name:
+                        if not (isinstance(t.slice, ast.Name) and t.slice.id == idx):
+                            return False
+            elif isinstance(node, ast.Call) and isinstance(node.func, ast.Attribute) and isinstance(node.func.value, ast.Name) \
+                    and node.func.value.id == name:
+                return False
+        return True
+
     def s_For(self, s, st):
         if s.orelse:
             raise Unsupported('for/else')
@@ -752,6 +775,8 @@ class FunctionEngine(CallsMixin, Engine):
         for loc in m.src_locs:
             for n in mutated:
                 if n in st.env and st.env[n].loc is not None and self.same_loc(st.env[n].loc, loc, st):
+                    if self.only_writes_current_position(s, n):
+                        continue   # `for i, x in enumerate(L): L[i] = ...` reads every element before it is written
                     raise Unsupported('loop body mutates the sequence it iterates over')
         n = m.n
         # inv-init with k = 0
